@@ -11,15 +11,64 @@ from harness.core import Outcome, f2b, b2f
 
 ID = "C07"
 LEAN_TARGETS = ["BeyondVerif.Props.C07"]
-THEOREMS = []
-LEVEL_TEXT = ""
-LEVEL_NOTE = ""
-TECHNIQUE = ""
-TRUSTED = []
-ASSUMPTIONS = []
-NOT_COVERED = []
-OPEN = []
-RULE = ""
+THEOREMS = [
+    "BeyondVerif.C07.wrapper_eq_reference",
+    "BeyondVerif.C07.wrapper_timedelta",
+    "BeyondVerif.C07.fields_valid",
+    "BeyondVerif.C07.fields_denote_instant",
+    "BeyondVerif.C07.fields_jday",
+    "BeyondVerif.C07.time_resolution",
+    "BeyondVerif.C07.beta_frame_orthonormal",
+    "BeyondVerif.C07.beta_kepler_residual",
+    "BeyondVerif.C07.beta_kepler_residual_abs",
+    "BeyondVerif.C07.beta_gravity_constants",
+    "BeyondVerif.Sgp4Wrap.ord2ymd_spec",
+    "BeyondVerif.Sgp4Wrap.jday_ymd2ord",
+]
+LEVEL_TEXT = ("Lean theorems: (1) default propagator with the sgp4 package as a parameter: for every library, TLE text and date the wrapper returns 1000 x the "
+              "library's result on the original lines and the UTC calendar tuple of the instant (given C12's parse/write identity as hypothesis); the tuple "
+              "(CPython's ord2ymd, modelled branch for branch) is a valid civil date that denotes the instant exactly for every date from year 1, and the "
+              "library's own Julian-day formula reads it back correctly for 1901-2099; exact correspondence of the arguments really handed to the library. "
+              "(2) native Sgp4Beta translated from its Python AST on every run: orthonormal frame (radius, radial velocity, speed identities for all angles), "
+              "Kepler loop exit => Newton correction < 1e-12 for every fuel, WGS-72 constants; correspondence 1e-9 relative. "
+              "'Native = reference within 1 cm' is oracle-only and currently FAILS (finding C07-native-a0-series).")
+LEVEL_NOTE = ("proof (partial): agreement of the native model with the third-party reference is not a theorem (two floating-point programs) - oracle only, with an open "
+              "finding; the library (SGP4/SDP4 theory itself) is a parameter; TLE text regeneration is C12's (hypothesis here; one open finding where it fails); "
+              "R -> double gap covered by tolerance-bounded correspondence; Lean kernel + propext/Classical.choice/Quot.sound; py2lean translator and harness trusted")
+TECHNIQUE = ("Lean 4 proof: omega/decide on a branch-for-branch model of CPython's calendar split; linear_combination / induction on fuel / norm_num on formulas "
+             "translated from the Python AST; exact and tolerance differential correspondence; oracle against python-sgp4 called directly")
+TRUSTED = [
+    "harness/py2lean.py + harness/py2lean_ext.py: translate Sgp4Beta.orbit (setter) and Sgp4Beta.propagate (attribute renaming, componentwise numpy 3-vectors, the for/break loop as fuel recursion, "
+    "cut into pieces) and the gravity class named by Sgp4Beta.MODEL into Generated/Sgp4Beta{F,R}.lean on every run; statements not translated are an explicit list of exact source lines "
+    "(date handling, object construction) and any other statement makes the extraction fail",
+    "lean/BeyondVerif/Model/Sgp4Wrap.lean (hand-written: CPython ord2ymd, strftime fields, wrapper control flow), tied by the exact correspondence run (arguments intercepted between beyond and the sgp4 package, stub and real library)",
+    "the third-party package sgp4 2.27 (twoline2rv, Satellite.propagate, sgp4.propagation.sgp4) as the reference implementation of Vallado's SGP4/SDP4, WGS-72",
+    "CPython: datetime arithmetic, strftime, float(decimal text) correctly rounded (checked equal to Lean's Float.ofScientific on every sampled value)",
+    "numpy / libm double arithmetic vs R: tolerance 1e-9 relative",
+]
+ASSUMPTIONS = [
+    "wrapper_eq_reference takes 'regenerating the TLE text of the parsed orbit reproduces the original lines' (C12 parse_write_id) as a hypothesis; the correspondence counts how often it held (lines=identical/differ) and the oracle compares states in any case",
+    "a date enters the wrapper model as the integer microsecond count of date.change_scale('UTC').datetime; that two labels of one instant give counts within 1 us is C04/C03's (oracle here: label independence within |v| x 50 us)",
+    "Earth-orientation data in the harness process: constant TAI-UTC = 37 s, UT1-UTC = -0.1234567 s (so that labels differ); no leap-second boundary is crossed",
+    "theorems about the native model are over R; the implementation computes in IEEE doubles",
+    "fields_jday is exact integer arithmetic; the library evaluates its formula in doubles (resolution 40 us at JD 2.45e6: the property's |v| x 50 us)",
+]
+NOT_COVERED = [
+    "'the native SGP4 returns the same state as the reference within 1 cm where the reference uses its full near-Earth model': two floating-point programs, one third-party - no theorem; S-oracle only (native vs sgp4.propagation.sgp4 at the same minutes since epoch, tolerance 1 cm + |v| x 1 us). The oracle currently finds 2-20 cm deviations: known finding C07-native-a0-series",
+    "the SGP4/SDP4 theory itself (inside the library parameter `lib`), including deep-space resonance and lunar-solar terms",
+    "native model: no theorem about the secular / long-period / short-period formulas being Vallado's (only translated and compared numerically); objects whose drag polynomial changes the semi-major axis by more than 2 % (oracle) / 20 % (correspondence) within the interval are excluded from the native comparisons (tallied)",
+    "double rounding of the seconds field beyond 'within 2^-48 s' (time_resolution takes the half-microsecond bound as hypothesis)",
+]
+OPEN = [
+    "finding C07-native-a0-series (open): Sgp4Beta recovers a0'' with the truncated series a0/(1-delta_0); proposed_fixes/C07-native-a0.diff",
+    "finding C07-regen-two-digit-exponent (open, shared with C12): Sgp4 cannot be initialised for TLEs whose ndotdot/B* is non-zero and below 1e-10; proposed_fixes/C07-unfloat-exponent.diff",
+    "Hinnant days_from_civil as a third independent reading of the tuple was planned and not done (ymd2ord and the library's jday are proved)",
+]
+RULE = ("correspondence: (a) 700/20000 edge datetimes 1957-2056 x 5 labels through the real Sgp4 with a stub library, (b) 300/8000 generated catalogue-like TLEs (all inclinations, e<=0.9, "
+        "0.5-16.5 rev/day, |B*|<=1e-2, epochs 1973-2017, +-30 d, date or timedelta argument) through the real Sgp4 with the installed sgp4 package: arguments handed to twoline2rv / "
+        "satrec.propagate intercepted and compared exactly with the model tuple, result compared bit for bit with 1000 x library(model tuple); (c) 500/12000 TLEs x 2 dates: Sgp4Beta init values "
+        "and state vs the compiled Lean translation, rtol 1e-9. non-trivial = offset != 0; distinct = distinct request. oracle: default propagator vs sgp4 called directly on the original lines and "
+        "independently computed UTC fields (|v| x 50 us), timedelta argument, label independence (UTC/TAI/TT/GPS/UT1), native vs reference theory 1 cm in the full near-Earth domain")
 
 MU_KM = 398600.8          # WGS-72, km^3/s^2 (generator only: perigee heights of the generated TLEs)
 RE_KM = 6378.135
